@@ -792,7 +792,7 @@ class Interp:
         """single-outcome evaluation (pure contexts)"""
         outs = list(self.eval(e, st))
         if len(outs) != 1:
-            raise Unsupported("expression forks in a context that needs one value: %s" % ast.dump(e)[:80])
+            raise Unsupported("expression has %d outcomes in a context that needs one value: %s" % (len(outs), ast.unparse(e)[:120]))
         return outs[0]
 
     def eval_list(self, es, st):
